@@ -1,6 +1,7 @@
 (* C14Check.v — judges the parsed-back output of the REAL built-in reporters. *)
 From CV Require Import Model.Base Model.Events Model.Contract Model.Normalize Model.Stats Model.StatsSpec
   Model.Reporters Model.ReportersSpec Check.Verdict.
+From CV Require Proofs.ReportersP2 Proofs.ReportersP3 Proofs.ReportersP4.
 
 Record rcase14 := mk_rcase14 {
   r_pathless : list N;            (* features without a source path *)
@@ -52,10 +53,23 @@ Definition known14 (c : rcase14) : N :=
   | _ => 0
   end.
 
+Definition theorem_applies (c : rcase14) : bool :=
+  let ns := normalized_stream c in
+  match r_writer c with
+  | 0 => forallb (fun e => match e with EvScen f _ _ _ _ => has_path_of c f | _ => true end) ns
+         && normalized_prefix ns && ReportersP3.has_pf ns && ReportersP3.steps_bracketed ns
+  | 1 => normalized ns && ReportersP2.fids_nonzero ns && ReportersP2.fids_have_path (has_path_of c) ns
+  | 2 => normalized_prefix ns && forallb (fun o => negb (snd o =? 2)) (attempt_outcomes ns)
+  | _ => normalized_prefix ns
+  end.
+
 Definition verdict (id : N) (c : rcase14) : list (list N) :=
   if contract_prefix (map snd (r_events c)) && retry_consistent (map snd (r_events c)) then
     (* K14d fails "in the recorded way" when the document is not well-formed (nothing can then be parsed back) *)
     let recorded := list_eqb rf_eqb (model_report c) (r_report c)
                     || ((known14 c =? 4) && negb (r_wellformed c)) in
-    [vrow id 1 (judge (c14_ok c) recorded (known14 c))]
+    [vrow id 1 (judge (c14_ok c) recorded (known14 c));
+     (* informational row (sub-check 90, never a failure): do the hypotheses of the whole-document theorem of this
+        writer (Props/C14.v) hold of the stream it receives? *)
+     [id; 90; 0; if theorem_applies c then 1 else 0]]
   else [vrow id 1 (4, 0)].
